@@ -98,7 +98,14 @@ fn make_versions(cx: &mut Cx, kind: Kind, n: usize) -> Versions {
             let key = gen::tx_key(&owner.public_key());
             let pool: Vec<Transaction> = (0..4).map(|_| gen::transaction(&mut cx.rng, &owner)).collect();
             let mut bytes: Vec<Vec<u8>> = vec![];
+            // one holder in four of the multi-version cases returns something that is not a transaction record at all
+            let rubbish_at = if n >= 2 && cx.rng.gen_bool(0.25) { Some(cx.rng.gen_range(0..n)) } else { None };
             while bytes.len() < n {
+                if Some(bytes.len()) == rubbish_at {
+                    cx.count("tx-versions:undecodable-among-them");
+                    bytes.push(if cx.rng.gen_bool(0.5) { gen::chunk_record(&gen::chunk(&mut cx.rng, 20)).value } else { gen::bytes_r(&mut cx.rng, 3, 40) });
+                    continue;
+                }
                 let k = cx.rng.gen_range(1..=3);
                 let v: Vec<Transaction> = pool.choose_multiple(&mut cx.rng, k).cloned().collect();
                 let b = gen::txs_record(key.clone(), &v).value;
@@ -195,9 +202,13 @@ impl Check for C05 {
         tier.pick(std::time::Duration::from_secs(150), std::time::Duration::from_secs(1500))
     }
     fn required_counters(&self, _tier: Tier) -> Vec<&'static str> {
-        vec!["outcome:value", "outcome:split", "outcome:merged", "terminal:Timeout", "terminal:Finished", "callers:cancelled", "duplicate-responder-sequences"]
+        vec!["outcome:value", "outcome:split", "outcome:merged", "terminal:Timeout", "terminal:Finished", "callers:cancelled", "duplicate-responder-sequences", "retry:reads-below-quorum", "retry:reads-reaching-quorum"]
     }
     fn run_case(&self, cx: &mut Cx) {
+        // every 10th case: a read with a retry strategy, the same few holders answering every attempt
+        if cx.index % 10 == 9 {
+            return retry_case(cx);
+        }
         let mut sim = Sim::new(cx.rng.gen(), false);
         sim.policy = Policy::Fifo;
         let ckp = gen::ed_keypair(&mut cx.rng);
@@ -481,5 +492,59 @@ impl Check for C05 {
         if cx.index < 3 {
             cx.sample(w);
         }
+    }
+}
+
+/// A read that retries: every attempt is its own kad query; a quorum is Q distinct peers agreeing WITHIN one
+/// attempt - the same holders answering again in the next attempt add nothing.
+fn retry_case(cx: &mut Cx) {
+    use crate::clientsim::{ClientSim, Order, Reply};
+    use ant_protocol::storage::RetryStrategy;
+    let mut cs = ClientSim::new(&mut cx.rng);
+    let kind = if cx.rng.gen_bool(0.5) { Kind::Chunk } else { Kind::Pad };
+    let v = make_versions(cx, kind, 1);
+    let quorum = match cx.rng.gen_range(0..3) {
+        0 => Quorum::Majority,
+        1 => Quorum::All,
+        _ => Quorum::N(NonZeroUsize::new(cx.rng.gen_range(2..=4)).expect("nz")),
+    };
+    let q = quorum_value(&quorum);
+    let attempts = cx.rng.gen_range(2..=4usize);
+    let strategy = if cx.rng.gen_bool(0.3) { RetryStrategy::Quick } else { RetryStrategy::N(NonZeroUsize::new(attempts).expect("nz")) };
+    // holders answering in attempt i (the same peers 0..h every time)
+    let below = cx.rng.gen_bool(0.7);
+    let holders_per_attempt: Vec<usize> = (0..6).map(|i| if below { cx.rng.gen_range(1..q) } else if i == 0 && cx.rng.gen_bool(0.5) { cx.rng.gen_range(1..q) } else { cx.rng.gen_range(q..=q + 2) }).collect();
+    let cfg = GetRecordCfg { get_quorum: quorum, retry_strategy: Some(strategy), target_record: None, expected_holders: Default::default(), is_register: false };
+    let (network, key) = (cs.sim.nodes[cs.ci].network.clone(), v.key.clone());
+    let h = cs.sim.spawn(async move { network.get_record_from_network(key, &cfg).await });
+    let value = v.bytes[0].clone();
+    let mut drive_rng = cx.rng.clone();
+    let mut asked = 0usize;
+    let finished = {
+        let mut done = || h.is_finished();
+        let mut answer = |_k: &RecordKey, _nth: usize| -> Vec<Reply> {
+            let n = holders_per_attempt[asked.min(holders_per_attempt.len() - 1)];
+            asked += 1;
+            let mut r: Vec<Reply> = (0..n).map(|p| Reply::Found(p, value.clone())).collect();
+            r.push(Reply::Finished);
+            r
+        };
+        cs.drive(&mut drive_rng, &Order::Fifo, &mut done, &mut answer)
+    };
+    if !finished {
+        h.abort();
+        cx.inconclusive("retrying read did not finish");
+        return;
+    }
+    cx.eval();
+    let reached = holders_per_attempt.iter().take(asked.max(1)).any(|n| *n >= q);
+    cx.count(if reached { "retry:reads-reaching-quorum" } else { "retry:reads-below-quorum" });
+    cx.nontrivial(&("retry", q, format!("{strategy:?}"), &holders_per_attempt[..asked.min(6)]));
+    let w = json!({"quorum": q, "strategy": format!("{strategy:?}"), "holders_answering_per_attempt": &holders_per_attempt[..asked.min(6)], "attempts_made": asked});
+    match cs.sim.rt.block_on(h) {
+        Ok(Ok(_)) if !reached => cx.violation("value-without-quorum:holders-counted-again-across-retries", format!("a read with quorum {q} succeeded although no attempt saw more than {} distinct holders ({asked} attempts)", holders_per_attempt.iter().take(asked.max(1)).max().copied().unwrap_or(0)), w),
+        Ok(Err(_)) if reached && holders_per_attempt.iter().take(asked).last().map(|n| *n >= q).unwrap_or(false) => cx.violation("quorum-reached-but-read-failed", format!("the last attempt saw {q} or more agreeing holders, yet the read failed"), w),
+        Err(e) => cx.violation("caller-task-died", format!("{e}"), w),
+        _ => cx.sample(w),
     }
 }
